@@ -32,7 +32,6 @@ def showVal : Val → String
   | .f b => s!"f:{hexNat 16 b}"
   | .b v => if v then "b:1" else "b:0"
   | .t bs => s!"t:{hexOfNats bs}"
-  | .tUnmodelled => "t:?"
   | .bits n bs => s!"bits:{n}:{hexOfNats bs}"
 
 def showErrK : ErrK → String
@@ -104,7 +103,6 @@ def parseObs (obs : String) : Option Obs :=
 
 def valEq : Val → Val → Bool
   | .f a, .f b => a == b || (isNaN64 a && isNaN64 b)   -- NaN payloads are not compared
-  | .tUnmodelled, .t _ => true
   | a, b => a == b
 
 def resEq : Res Val → Res Val → Bool
